@@ -264,7 +264,9 @@ def run(ch, ctx, fault=None):
                 obj, i, m = ch.pick("ns", nss)
                 used_old = True
                 names = list(classes[i]["fields"])
-                upd = {n: ch.int("val", 0, 4) for n in names if ch.bool("give", 0.5)}
+                # (None is a value like any other: an optional field reset to "nothing")
+                upd = {n: ch.pick("uval", (0, 1, 2, 3, 4, None)) for n in names
+                       if ch.bool("give", 0.5)}
                 if ch.bool("unknown", 0.1):
                     res = attempt(lambda: obj.update(zzz=1), op)
                     check(res == ("exc", "UnknownArgsFieldError"), "unknown_field_accepted",
@@ -335,7 +337,8 @@ def run(ch, ctx, fault=None):
                 j = ch.int("cls", 0, len(classes) - 1)
                 used_old = True
                 fields = classes[j]["fields"]
-                upd = {n: ch.int("val", 0, 4) for n in (fields or {"f0": 0}) if ch.bool("give", 0.6)}
+                upd = {n: ch.pick("uval", (0, 1, 2, 3, 4, None)) for n in (fields or {"f0": 0})
+                       if ch.bool("give", 0.6)}
                 res = attempt(lambda: obj.update(classes[j]["cls"], **upd), op)
                 desc = "RenderArgs(%s).update(%s, %s)" % (classes[i]["name"], classes[j]["name"], upd)
                 if not is_ancestor_or_self(j, i):
